@@ -42,6 +42,7 @@ pub fn run(args: &Args, log: &Log) -> Result<(), String> {
         "nego" => nego::run(args, log),
         "proto" => proto::run(args, log),
         "share" => share::run(args, log),
+        "cut" => share::run_cut(args, log),
         d => Err(format!("unknown driver {d}")),
     }
 }
